@@ -220,6 +220,14 @@ def automaton_case(ctx, idx, rng):
     ctx.ok('automaton.graph-length', depth == L and g.length == L, f'length {g.length}/{depth} != {L}', detail)
     ctx.ok('automaton.polynomial==path-sum', poly == ref, f'graph denotes {dict(list(poly.items())[:4])}..., automaton paths sum to {dict(list(ref.items())[:4])}...', detail)
     ctx.ok('automaton.input-consistent-after', bool(au.is_consistent()), 'automaton inconsistent after unrolling', detail)
+    # the unrolled graph (parallel multi-operator edges with partially overlapping ids are typical here) simplified on a copy: same meaning
+    import copy as _copy
+    g2 = _copy.deepcopy(g)
+    g2.simplify()
+    st2 = refs.graph_structure_ok(g2)
+    if ctx.ok('automaton.simplified-structure', st2 is None and bool(g2.is_consistent()), f'after simplify: {st2}', detail):
+        poly2, depth2 = refs.graph_poly(g2)
+        ctx.ok('automaton.simplified-polynomial==path-sum', poly2 == ref and depth2 == L, f'simplified graph denotes {dict(list(poly2.items())[:4])}..., automaton paths sum to {dict(list(ref.items())[:4])}...', detail)
     if L <= 5:
         d = 2
         opmap = {k: rng.normal(size=(d, d)) for k in range(0, 3)}
